@@ -18,6 +18,14 @@ CLAIMS = {
               "Exhaustive in both directions, which is the quantifier of the property."),
         design="5/C22", technique="TLA+ spec + TLC exhaustive MC; TLC trace validation of real-controller BFS; TLC-generated per-transition replay",
         note="Trusts TLC, the Go toolchain and the 60-line joypad driver; a fresh controller is assumed to have no key held."),
+    "C12": dict(
+        category="model_checking",
+        text=("Timer.tla (16-bit counter, edge detector, relative overflow/zero/reload pipeline, interrupt bookkeeping) is model-checked by TLC over all operation "
+              "sequences up to a depth (quick 4/6, thorough 6/8) from every counter phase around every selected bit edge and the 16-bit wrap, against a declarative "
+              "statement of the property. The same alphabet is driven on the real timer.Timer (sampled leaves of the full operation tree plus long random schedules) "
+              "and every recorded execution is validated by TLC against the spec, step by step."),
+        design="5/C12", technique="TLA+ spec + TLC bounded exhaustive MC; TLC trace validation of recorded timer schedules",
+        note="Bounded depth; glitches inside one machine cycle, an edge on the reload tick and the cycle after a cancelled reload are left nondeterministic (the statement is silent)."),
 }
 
 NOT_YET = "machinery for this property is not built yet in this round (work in progress; see DESIGN.md section 5)"
